@@ -26,7 +26,7 @@ def strategy(tier):
 
 def hyp(acc, n, seed, tier):
     mod = sys.modules[MOD]
-    harness.run_hypothesis(acc, strategy(tier), lambda c: harness.process(mod, acc, "markertriple", c, "marker-L2-hyp", timeout_s=4.0 if tier == "quick" else 15.0), n, seed)
+    harness.run_hypothesis(acc, strategy(tier), lambda c: harness.process(mod, acc, "markertriple", c, "marker-L2-hyp", timeout_s=2.5 if tier == "quick" else 6.0), n, seed)
 
 
 def laws(a, b, c):
